@@ -137,6 +137,8 @@ def run(facts, rep, ctx):
             rep.violation(R3, b.name, "window-cap", "window cap %s: displacement-1 does not fit 12 bits" % hex(W), where)
         if thr and all(t >= 3 for t in thr):
             rep.ok(R3, {"threshold": sorted(thr)})
+        elif not thr:
+            rep.inconc(R3, "the literal/reference threshold was not recognised")
         else:
             rep.violation(R3, b.name, "threshold", "references are emitted for lengths below 3 (threshold %s): the 2-byte form's high nibble would collide with the form indicators 0/1" % sorted(thr), where)
     sub_guards(facts, rep, R4, b)
